@@ -4,6 +4,7 @@ import (
 	"bytes"
 	"fmt"
 	"strings"
+	"sync"
 	"testing"
 
 	cose "github.com/veraison/go-cose"
@@ -48,8 +49,60 @@ func newDest(kind refcose.Kind) any {
 
 type unmarshaler interface{ UnmarshalCBOR([]byte) error }
 
+// deepCsigWire is a COSE_Sign1 whose unprotected header carries a chain of n nested countersignatures.
+func deepCsigWire(n int) []byte {
+	cs := []byte{0x83, 0x40, 0xa0, 0x41, 0x01}
+	for i := 1; i < n; i++ {
+		next := []byte{0x83, 0x40, 0xa1, 0x0b}
+		next = append(next, cs...)
+		cs = append(next, 0x41, byte(i+1))
+	}
+	w := []byte{0xd2, 0x84, 0x43, 0xa1, 0x01, 0x27, 0xa1, 0x0b}
+	w = append(w, cs...)
+	return append(w, 0x41, 0x70, 0x41, 0x01)
+}
+
+// canaries: fixed inputs whose decoding must give the same value at any time in the life of the
+// process, whatever was decoded (or refused) before.
+var c19Canaries = sync.OnceValue(func() map[string]string {
+	out := map[string]string{}
+	for _, w := range [][]byte{deepCsigWire(1), deepCsigWire(3), {0xd2, 0x84, 0x43, 0xa1, 0x01, 0x26, 0xa1, 0x04, 0x42, 0x31, 0x31, 0x41, 0x70, 0x41, 0x01},
+		{0xd8, 0x62, 0x84, 0x40, 0xa0, 0x41, 0x70, 0x81, 0x83, 0x43, 0xa1, 0x01, 0x27, 0xa1, 0x0b, 0x83, 0x40, 0xa0, 0x41, 0x02, 0x41, 0x01}} {
+		kind := refcose.KSign1
+		if w[0] == 0xd8 {
+			kind = refcose.KSign
+		}
+		v, err := decodeAny(kind, w)
+		out[string(w)] = fmt.Sprint(err) + bridge.DumpValue(v)
+	}
+	return out
+})
+
+func checkCanaries() error {
+	for w, want := range c19Canaries() {
+		kind := refcose.KSign1
+		if w[0] == 0xd8 {
+			kind = refcose.KSign
+		}
+		v, err := decodeAny(kind, []byte(w))
+		if got := fmt.Sprint(err) + bridge.DumpValue(v); got != want {
+			return finding("history-dependent/process-state", "decoding a fixed input gives another result than the first time this process decoded it\nwire=%x\nfirst=%s\n  now=%s", []byte(w), want, got)
+		}
+	}
+	return nil
+}
+
 // checkC19 replays the history and checks the three clauses after each step.
 func checkC19(c c19Case) error {
+	c19Canaries()
+	defer stats.Class("canaries-rechecked")
+	if err := checkC19Steps(c); err != nil {
+		return err
+	}
+	return checkCanaries()
+}
+
+func checkC19Steps(c c19Case) error {
 	dest := newDest(c.Kind)
 	var inputs, outputs [][]byte
 	var lastEnc []byte
@@ -187,7 +240,14 @@ func genC19Case(t *rapid.T) c19Case {
 	// every history starts with a successful decode so that there is state to damage
 	c.Steps = append(c.Steps, c19Step{Op: "decode", Wire: seedFor(t, c.Kind)})
 	for i := 0; i < n; i++ {
-		switch rapid.IntRange(0, 8).Draw(t, "step") {
+		switch rapid.IntRange(0, 9).Draw(t, "step") {
+		case 9:
+			// a chain of nested countersignatures, up to depths some limit may refuse
+			if c.Kind == refcose.KSign1 {
+				c.Steps = append(c.Steps, c19Step{Op: "decode", Wire: deepCsigWire(rapid.IntRange(2, 16).Draw(t, "csig-depth"))})
+			} else {
+				c.Steps = append(c.Steps, c19Step{Op: "encode"})
+			}
 		case 7:
 			c.Steps = append(c.Steps, c19Step{Op: "edit"})
 		case 8:
